@@ -10,6 +10,7 @@ claims attributed to a peer = its last announcement, every claim and cached deci
 payload datagram ever goes to a non-peer."""
 import os
 import vplib as V
+from checks import cloudcommon
 from checks import noderuns
 
 PID = "C12"
@@ -68,6 +69,8 @@ def run(tier, out):
         cov["transitions"] = cov_table.get("transitions", states)
     else:
         cov["explanation"] = "no design-level state graph in this run"
+    cloudcommon.design(PID, tier, out, cov)
+    cloudcommon.part(PID, tier, out, cov)
     return out.finish("model_checking", cov, assumptions=[
         "peer timeout 130 s in the recorded runs; a restarted node dials one other node; nodes that nobody knows any more stay isolated (no bootstrap) - not a C12 matter",
         "the expected claims of a peer entry are those the harness configured for the node instance whose node id the entry carries"])
